@@ -92,6 +92,13 @@ def run(ctx):
     vlib.write_ndjson(tp, events)
     viols, done = vlib.validate_trace(ctx, "AsyncWriterTrace", "AsyncWriterTrace.cfg", tp, heap="16g", timeout=1800)
     judge(ctx, events, viols)
+    # the flush that a PAUSE request performs, at the level where clients ask for it (AnySource.WriteControl ->
+    # DataPublisher.SetPause -> Flush of every writer): write-control histories of WriteControl.tla on a real AnySource,
+    # the files decoded at the moment PAUSE has returned (WriteControlTrace.tla, predicate C07_pause_flushes)
+    import wc_common as wc
+    wevents, wviols = wc.model_and_traces(ctx, ["C07_"])
+    ctx.notes["pause_requests_with_files_read"] = sum(1 for e in wevents if e["ev"] == "Req" and e["req"] == "PAUSE" and e["ok"])
+    wc.judge(ctx, wevents, wviols, lambda s, idx, e: {"event": e["ev"], "layer": "write-control", "type": e.get("t", "")})
     return vlib.finish(ctx, LEVEL, RULE,
                        ["the disk is a named pipe (real writers) or a gated io.Writer (asyncbufio): stalls are whole-write granular",
                         "single producer thread per writer, as in dastard (PublishData and Flush of one channel never overlap)",
